@@ -61,12 +61,20 @@ def monitor(script, c):
     hits = []
     sl = script.split("\n")
     out = {int(l.split()[0]): l.split() for l in c if l.strip()}
+    desync = set()      # SSRCs whose receiver missed a packet the sender processed: "same index state" no longer holds for them
     for i, l in enumerate(sl, 1):
         t = l.split()
         if len(t) > 2 and t[0] == "#" and t[1] == "RT":
             pr, un = out.get(i - 2, []), out.get(i - 1, [])
-            if len(pr) < 5 or len(un) < 5 or int(pr[2], 16) != 0 or t[2] == "0":
-                continue            # protect refused the packet, or outside the property's domain
+            ssrc = sl[i - 3].split("|")[1].strip()[16:24]
+            if len(pr) < 5 or len(un) < 5 or int(pr[2], 16) != 0:
+                continue            # protect refused the packet
+            if t[2] == "0" or ssrc in desync:
+                # outside the property's domain (or the peer is no longer in the same index state): the sender has advanced;
+                # if the receiver did not accept this packet its estimate may differ from now on
+                if int(un[2], 16) != 0:
+                    desync.add(ssrc)
+                continue
             orig = sl[i - 3].split("|")[1].strip()
             if int(un[2], 16) != 0:
                 hits.append({"what": "peer session fails to unprotect a packet srtp_protect produced", "signature": "rtp-roundtrip-status",
